@@ -1,5 +1,5 @@
 (* Entry point of the extracted model: one request (an s-expression) in, one out. *)
-Require Import BB.Base.Str BB.Base.Sx BB.Base.Xml BB.Model.PreParse BB.Model.Eid BB.Model.PegSyntax BB.Model.Peg BB.Gen.Grammar BB.Base.Dict BB.Model.Types.
+Require Import BB.Base.Str BB.Base.Sx BB.Base.Xml BB.Model.PreParse BB.Model.Eid BB.Model.PegSyntax BB.Model.Peg BB.Gen.Grammar BB.Base.Dict BB.Model.Types BB.Model.XmlGen BB.Model.Post BB.Model.Convert.
 Open Scope N_scope.
 
 Definition opt_str_sx (o : option str) : sx :=
@@ -42,6 +42,26 @@ Definition dispatch (req : sx) : sx :=
                 | OkR d => dnode_to_sx d
                 | ErrR k => L [A (of_string "ERR"); A k]
                 end
+            end
+        | _ => sx_err "BadRequest"
+        end
+      else if str_eqb stage (of_string "e2e") then
+        match args with
+        | [A uri; A root; A prefix; A text] => r_xml_sx (convert uri root prefix text)
+        | _ => sx_err "BadRequest"
+        end
+      else if str_eqb stage (of_string "post") then
+        match args with
+        | [A step; A prefix; x] =>
+            match xml_of_sx x with
+            | None => sx_err "BadXml"
+            | Some e =>
+                let fuel := S (xsize e) in
+                if str_eqb step (of_string "displaced") then r_xml_sx (resolve_displaced_content e)
+                else if str_eqb step (of_string "normalise") then xml_to_sx (normalise fuel e)
+                else if str_eqb step (of_string "titles") then xml_to_sx (set_attachment_titles fuel e)
+                else if str_eqb step (of_string "all") then r_xml_sx (post_process prefix e)
+                else sx_err "BadRequest"
             end
         | _ => sx_err "BadRequest"
         end
